@@ -17,6 +17,11 @@
  *   pre <state> / op <name> <arg> / ret <r> / post <state>
  *   frame <rc> <mid?> [<mid state> <time>] k <ord pos row frame seq loopcnt numrows endpoint> fi <...>
  *   oracle ok <class> | oracle fail <signature> <detail>
+ *
+ * Histories contain player restarts: op start_player 0 = xmp_end_player + xmp_start_player,
+ * op start_player 1 = xmp_start_player on the playing context, usually issued while another
+ * sub-song is selected and followed by relative / time calls.  The harness tracks the sequence
+ * that the history puts in force (exp_seq) and evaluates every sequence clause against it.
  */
 #include <signal.h>
 #include <unistd.h>
@@ -234,13 +239,26 @@ static void dump_module(struct context_data *ctx, const char *name)
 
 /* ---------------------------------------------------------------- cases */
 
-enum { OP_SETPOS, OP_NEXT, OP_PREV, OP_SETROW, OP_SEEK, OP_RESTART, OP_STOP, OP_N };
+enum { OP_SETPOS, OP_NEXT, OP_PREV, OP_SETROW, OP_SEEK, OP_RESTART, OP_STOP, OP_START, OP_N };
 static const char *const opname[OP_N] = { "set_position", "next_position", "prev_position", "set_row",
-					   "seek_time", "restart_module", "stop_module" };
+					   "seek_time", "restart_module", "stop_module", "start_player" };
 
 static struct context_data *C;
 static xmp_context X;
 static int case_no;
+/* the sequence that must be in force according to the history: 0 after xmp_start_player, the
+ * sequence of the target after an absolute xmp_set_position; relative calls, restart, stop and
+ * playback never change it */
+static int exp_seq;
+
+static void track_setpos(int t)
+{
+	if (t >= 0 && t < C->m.mod.len && C->p.sequence_control[t] != 0xff)
+		exp_seq = C->p.sequence_control[t];
+}
+
+#define RATE 8000
+#define FORMAT (XMP_FORMAT_MONO | XMP_FORMAT_8BIT)
 
 static int valid_ord(int i)
 {
@@ -303,11 +321,16 @@ static void do_case(int op, int arg)
 	struct xmp_frame_info fi;
 	char pre[512], post[512], aft[512];
 	int ret = 0, rc, failed = 0;
-	int pre_ord = p->ord, pre_pos = p->pos, pre_seq = p->sequence, pending = p->ord != p->pos;
+	int pre_ord = p->ord, pre_pos = p->pos, pre_seq = exp_seq, pending = p->ord != p->pos;
+	int seq_real = p->sequence;
 	int len = mod->len, marker = HAS_QUIRK(QUIRK_MARKER) ? 1 : 0;
 	const char *cls = "unconstrained";
 	int i;
 
+	if (op == OP_START && arg == 0) {	/* restart of a stopped player; arg 1: start on a playing context */
+		fprintf(O, "s endplayer\n");
+		xmp_end_player(X);
+	}
 	fprintf(O, "case %d\n", case_no++);
 	fmt_state(pre, sizeof pre, C);
 	fprintf(O, "pre %s\nop %s %d\n", pre, opname[op], arg);
@@ -322,9 +345,19 @@ static void do_case(int op, int arg)
 	case OP_SEEK: ret = xmp_seek_time(X, arg); break;
 	case OP_RESTART: xmp_restart_module(X); break;
 	case OP_STOP: xmp_stop_module(X); break;
+	case OP_START: ret = xmp_start_player(X, RATE, FORMAT); break;
 	}
 	fmt_state(post, sizeof post, C);
 	fprintf(O, "ret %d\npost %s\n", ret, post);
+	if (op == OP_START) {
+		if (ret < 0) {
+			fprintf(O, "oracle fail ret:xmp_start_player restart of the player failed with %d\n", ret);
+			fflush(O);
+			exit(4);
+		}
+		xmp_set_player(X, XMP_PLAYER_INTERP, XMP_INTERP_NEAREST);
+		exp_seq = 0;
+	}
 	mid_seen = 0;
 	snprintf(cur_what, sizeof cur_what, "%s+frame", opname[op]);
 	rc = xmp_play_frame(X);
@@ -342,8 +375,12 @@ static void do_case(int op, int arg)
 	fprintf(O, " fi %d %d %d %d %d %d %d\n", fi.pos, fi.pattern, fi.row, fi.num_rows, fi.frame, fi.loop_count, fi.sequence);
 
 	/* ---------------- direct oracle: the property's landing clauses on the real code */
+	if (seq_real != pre_seq && op != OP_START)
+		FAIL("sequence:in-force", "%s called with sequence %d in force, but the history (last player start / absolute position) selects sequence %d",
+		     opname[op], seq_real, pre_seq);
 	switch (op) {
 	case OP_SETPOS:
+		track_setpos(arg);
 		if (arg < 0 || arg >= len) {
 			cls = "refuse";
 			if (ret != -XMP_ERROR_INVALID)
@@ -462,6 +499,7 @@ static void do_case(int op, int arg)
 			while (marker && t < len && mod->xxo[t] == 0xfe)
 				t++;
 			cls = "seek:fallback";
+			track_setpos(0);
 			if (valid_ord(t) && p->sequence_control[0] < m->num_sequences && !(t == pre_ord && t != 0)) {
 				if (ret != t || rc != 0 || fi.pos != t || fi.row != 0 || fi.frame != 0)
 					FAIL("fallback:xmp_seek_time", "seek_time(%d) with no candidate: expected order %d, returned %d, frame rc=%d pos=%d row=%d",
@@ -489,6 +527,22 @@ static void do_case(int op, int arg)
 		if (rc != -XMP_END)
 			FAIL("end:xmp_stop_module", "frame after xmp_stop_module returned %d", rc);
 		break;
+	case OP_START: {
+		/* a (re)started player plays the main sequence from its first pattern */
+		int t = 0;
+		while (t < len && !valid_ord(t) && !(marker && mod->xxo[t] == 0xff))
+			t++;
+		cls = arg ? "start:playing" : "start:stopped";
+		if (fi.sequence != 0)
+			FAIL("sequence:xmp_start_player", "player started after sequence %d was selected: frame info reports sequence %d, not 0", seq_real, fi.sequence);
+		if (valid_ord(t)) {
+			if (rc != 0 || fi.pos != t || fi.row != 0 || fi.frame != 0)
+				FAIL("land:xmp_start_player", "player start: frame rc=%d pos=%d row=%d frame=%d, expected order %d row 0 frame 0", rc, fi.pos,
+				     fi.row, fi.frame, t);
+			if (fi.loop_count != 0 && !(p->scan[0].num == 0 && t == p->scan[0].ord && 0 == p->scan[0].row))
+				FAIL("loop:xmp_start_player", "player start: loop count %d in the first frame", fi.loop_count);
+		}
+		break; }
 	}
 	if (!failed)
 		fprintf(O, "oracle ok %s\n", cls);
@@ -511,7 +565,7 @@ static void gen_cases(int thorough, int ncases)
 	struct player_data *p = &C->p;
 	int k, len = mod->len;
 	int sweep_pos = -2, sweep_row = -1, sweep_seek = 0;
-	int total = ncases;
+	int total = ncases, after_start = 0;
 
 	if (thorough) {
 		/* exhaustive targets: every order (+ both refused neighbours), every info time +-1, rows swept */
@@ -521,15 +575,21 @@ static void gen_cases(int thorough, int ncases)
 	}
 	for (k = 0; k < total; k++) {
 		int r = vrng_below(100), op, arg = 0;
+		if (after_start > 0) {		/* relative / time calls right after a player start */
+			after_start--;
+			if (vrng_chance(75))
+				r = vrng_chance(40) ? 80 : 34 + (int)vrng_below(2) * 14;	/* seek, next or prev */
+		}
 		/* move to a playback point */
 		if (vrng_chance(8))
 			step_plain("restart");
-		if (vrng_chance(12) && len > 0) {
+		if (vrng_chance(12) && len > 0 && !after_start) {
 			int t = vrng_below(len);
 			fprintf(O, "s setpos %d\n", t);
 			xmp_set_position(X, t);
+			track_setpos(t);
 		}
-		step_play(vrng_chance(70) ? vrng_range(0, 12) : vrng_range(0, 90));
+		step_play(after_start ? vrng_range(0, 3) : vrng_chance(70) ? vrng_range(0, 12) : vrng_range(0, 90));
 		/* pending flow state: injected jump / break / pattern delay / pattern loop / row delay */
 		if (mod->chn > 0 && vrng_chance(45)) {
 			int c = vrng_below(mod->chn), w = vrng_below(7);
@@ -545,10 +605,11 @@ static void gen_cases(int thorough, int ncases)
 			}
 			step_play(vrng_range(1, 3));
 		}
-		if (vrng_chance(6)) {		/* call while another reposition is pending */
+		if (vrng_chance(6) && !after_start) {		/* call while another reposition is pending */
 			int t = vrng_below(len > 0 ? len : 1);
 			fprintf(O, "s setpos %d\n", t);
 			xmp_set_position(X, t);
+			track_setpos(t);
 		}
 		/* choose the call */
 		if (r < 34) {
@@ -588,10 +649,22 @@ static void gen_cases(int thorough, int ncases)
 				if (vrng_chance(10))
 					arg = vrng_below(p->scan[p->sequence].time > 0 ? p->scan[p->sequence].time : 1);
 			}
-		} else if (r < 95) {
+		} else if (r < 94) {
 			op = OP_RESTART;
-		} else {
+		} else if (r < 97) {
 			op = OP_STOP;
+		} else {
+			/* player restart in the middle of the history, usually while another sub-song is selected */
+			op = OP_START;
+			arg = vrng_below(2);
+			if (m->num_sequences > 1 && vrng_chance(70)) {
+				int q = 1 + vrng_below(m->num_sequences - 1), t = m->seq_data[q].entry_point;
+				fprintf(O, "s setpos %d\n", t);
+				xmp_set_position(X, t);
+				track_setpos(t);
+				step_play(vrng_range(0, 6));
+			}
+			after_start = 2;
 		}
 		do_case(op, arg);
 	}
@@ -618,7 +691,8 @@ static int open_module(const char *path)
 		xmp_free_context(X);
 		return -1;
 	}
-	if (xmp_start_player(X, 8000, XMP_FORMAT_MONO | XMP_FORMAT_8BIT) < 0) {
+	exp_seq = 0;
+	if (xmp_start_player(X, RATE, FORMAT) < 0) {
 		fprintf(O, "skip %s start\n", path);
 		xmp_release_module(X);
 		xmp_free_context(X);
@@ -659,9 +733,12 @@ static int run_script(const char *path, const char *script)
 			step_inject(a, b, c);
 		else if (!strcmp(w, "restart"))
 			step_plain("restart");
+		else if (!strcmp(w, "endplayer"))
+			;	/* emitted by the start_player case itself */
 		else if (!strcmp(w, "setpos")) {
 			fprintf(O, "s setpos %d\n", a);
 			xmp_set_position(X, a);
+			track_setpos(a);
 		} else if (!strcmp(w, "op")) {
 			char nm[64];
 			int i;
